@@ -193,8 +193,14 @@ func (o *Oracle) afterStoreLogs(inc *Inc, ents []Ent) {
 func (o *Oracle) prevConfigInLog(n *Node, idx uint64) (raft.Configuration, uint64, bool) {
 	d := n.disk
 	var best *raft.Log
+	snap := d.newestSnap()
+	snapIdx := uint64(0)
+	if snap != nil && snap.Meta.Index < idx {
+		snapIdx = snap.Meta.Index
+	}
 	for i, l := range d.logs {
-		if i < idx && l.Type == raft.LogConfiguration && (best == nil || i > best.Index) {
+		// entries at or below the snapshot are superseded by it
+		if i < idx && i > snapIdx && l.Type == raft.LogConfiguration && (best == nil || i > best.Index) {
 			best = l
 		}
 	}
@@ -203,8 +209,8 @@ func (o *Oracle) prevConfigInLog(n *Node, idx uint64) (raft.Configuration, uint6
 			return c, best.Index, true
 		}
 	}
-	if s := d.newestSnap(); s != nil && s.Meta.Index < idx {
-		return s.Meta.Configuration, s.Meta.ConfigurationIndex, true
+	if snapIdx > 0 {
+		return snap.Meta.Configuration, snap.Meta.ConfigurationIndex, true
 	}
 	return raft.Configuration{}, 0, false
 }
@@ -299,18 +305,10 @@ func (o *Oracle) beforeDeleteRange(inc *Inc, min, max uint64) {
 		if hi > snapIdx {
 			w.violate("C11", "C11/compaction-beyond-snapshot", "%s deletes log prefix [%d,%d] but its newest durable snapshot is at %d", inc.tag, lo, hi, snapIdx)
 		}
-		remain := uint64(0)
-		for i := range d.logs {
-			if i < lo || i > hi {
-				remain++
-			}
-		}
-		need := w.cfg.TrailingLogs
-		if count < need {
-			need = count
-		}
-		if remain < need && o.installing[inc.node.idx] == 0 && o.userRestoring[inc.node.idx] == 0 {
-			w.violate("C11", "C11/trailing-logs-not-kept", "%s compaction [%d,%d] leaves %d entries, TrailingLogs=%d, had %d", inc.tag, lo, hi, remain, w.cfg.TrailingLogs, count)
+		// routine compaction keeps the last TrailingLogs indexes of the log
+		if d.last >= w.cfg.TrailingLogs && hi > d.last-w.cfg.TrailingLogs && o.installing[inc.node.idx] == 0 && o.userRestoring[inc.node.idx] == 0 {
+			w.violate("C11", "C11/trailing-logs-not-kept", "%s compaction [%d,%d] with log [%d,%d] and TrailingLogs=%d removes one of the last %d entries (%d in log)",
+				inc.tag, lo, hi, d.first, d.last, w.cfg.TrailingLogs, w.cfg.TrailingLogs, count)
 		}
 	case suffix || whole:
 		w.stats.probe("suffix_truncation")
@@ -544,7 +542,8 @@ func (o *Oracle) report(e Ent, by *Inc, how string) {
 func (o *Oracle) candidateConfigs(e Ent) []cfgRec {
 	base := uint64(0)
 	for _, r := range o.cfgs {
-		if r.idx <= e.Index && r.idx > base {
+		// the entry itself (when it is a configuration) may still be committed under its predecessor
+		if r.idx < e.Index && r.idx > base {
 			if g := o.ghost[r.idx]; g != nil && g.ent.Term == r.term {
 				base = r.idx
 			}
@@ -678,21 +677,16 @@ func (o *Oracle) onSend(inc *Inc, m *Msg) {
 	switch m.Kind {
 	case "AE", "HB", "IS":
 		if prev, ok := o.senders[m.Term]; ok && prev != m.Src {
-			w.violate("C01", "C01/two-senders-in-term", "s%d and s%d both send %s as leader of term %d", prev, m.Src, m.Kind, m.Term)
+			v := w.violate("C01", "C01/two-senders-in-term", "s%d and s%d both send %s as leader of term %d", prev, m.Src, m.Kind, m.Term)
+			v.Facts["both_won_an_election"] = fmt.Sprint(o.wonElection(prev, m.Term) && o.wonElection(m.Src, m.Term))
 		} else {
 			o.senders[m.Term] = m.Src
 		}
 		if l, ok := o.leaders[m.Term]; ok && l.node != m.Src {
-			w.violate("C01", "C01/non-leader-sends-as-leader", "s%d sends %s for term %d whose leader is s%d", m.Src, m.Kind, m.Term, l.node)
+			v := w.violate("C01", "C01/non-leader-sends-as-leader", "s%d sends %s for term %d whose leader is s%d", m.Src, m.Kind, m.Term, l.node)
+			v.Facts["both_won_an_election"] = fmt.Sprint(o.wonElection(l.node, m.Term) && o.wonElection(m.Src, m.Term))
 		}
 	case "RV", "PV":
-		// only a voter of its own latest configuration asks for votes (C07)
-		if inc.r != nil {
-			_, _, latest, _ := inc.r.VerifConfigurations()
-			if len(latest.Servers) > 0 && !isVoter(latest, inc.node.id) {
-				w.violate("C07", "C07/non-voter-campaigns", "%s sends %s for term %d but is not a voter in its latest configuration {%s}", inc.tag, m.Kind, m.Term, idsOf(latest))
-			}
-		}
 		if m.Kind == "RV" {
 			w.stats.probe("request_vote_sent")
 		}
@@ -700,6 +694,30 @@ func (o *Oracle) onSend(inc *Inc, m *Msg) {
 	if m.Kind == "IS" {
 		w.stats.probe("install_snapshot_sent")
 	}
+}
+
+// wonElection: did node collect a quorum of votes for term, as far as the simulator saw
+// (granted RequestVote responses from others plus its own persisted self-vote)?
+func (o *Oracle) wonElection(node int, term uint64) bool {
+	w := o.w
+	n := w.nodes[node]
+	got := 0
+	if n.disk.kvInt["LastVoteTerm"] == term && string(n.disk.kv["LastVoteCand"]) == string(n.addr) {
+		got++
+	}
+	for k, cand := range o.votes {
+		if k.term == term && int(k.idx) != node && cand == string(n.id) {
+			got++
+		}
+	}
+	// the smallest quorum over all configurations this node may have used
+	need := 1 << 30
+	for _, c := range append([]cfgRec{{cfg: o.initCfg}}, o.cfgs...) {
+		if q := len(voters(c.cfg))/2 + 1; q < need && isVoter(c.cfg, n.id) {
+			need = q
+		}
+	}
+	return got >= need
 }
 
 func lastOfDisk(d *Disk) (idx, term uint64) {
@@ -853,14 +871,16 @@ func (o *Oracle) poll() {
 		if state == raft.Leader {
 			if prev, ok := o.leaders[term]; ok {
 				if prev.node != n.idx {
-					w.violate("C01", "C01/two-leaders-in-term", "s%d and s%d both report Leader in term %d", prev.node, n.idx, term)
+					v := w.violate("C01", "C01/two-leaders-in-term", "s%d and s%d both report Leader in term %d", prev.node, n.idx, term)
+					v.Facts["both_won_an_election"] = fmt.Sprint(o.wonElection(prev.node, term) && o.wonElection(n.idx, term))
 				}
 			} else {
 				o.leaders[term] = leaderRec{node: n.idx, inc: inc.n, seq: w.sim.Seq()}
 				o.onNewLeader(inc, term)
 			}
 			if s, ok := o.senders[term]; ok && s != n.idx {
-				w.violate("C01", "C01/non-leader-sends-as-leader", "s%d reports Leader of term %d but s%d sent as leader of that term", n.idx, term, s)
+				v := w.violate("C01", "C01/non-leader-sends-as-leader", "s%d reports Leader of term %d but s%d sent as leader of that term", n.idx, term, s)
+				v.Facts["both_won_an_election"] = fmt.Sprint(o.wonElection(n.idx, term) && o.wonElection(s, term))
 			}
 		}
 		if state == raft.Follower {
@@ -870,7 +890,14 @@ func (o *Oracle) poll() {
 					if ok {
 						who = string(w.nodes[l.node].id)
 					}
-					w.violate("C18", "C18/follower-names-wrong-leader", "%s (term %d) names %s as leader but the leader observed for that term is %s", inc.tag, term, lid, who)
+					v := w.violate("C18", "C18/follower-names-wrong-leader", "%s (term %d) names %s as leader but the leader observed for that term is %s", inc.tag, term, lid, who)
+					led := false
+					for t, lr := range o.leaders {
+						if t < term && w.nodes[lr.node].id == lid {
+							led = true
+						}
+					}
+					v.Facts["named_led_an_earlier_term"] = fmt.Sprint(led)
 				}
 			}
 		}
@@ -933,6 +960,11 @@ func (o *Oracle) onNodePanic(inc *Inc, p simrt.PanicInfo) {
 	if strings.Contains(msg, "injected") {
 		// documented: the server takes itself out when its stable store fails (e.g. full disk)
 		w.stats.probe("panic_on_store_error")
+		return
+	}
+	if inc.booting && w.stats.Faults["disk_full_error"]+w.stats.Faults["disk_op_error"] > inc.bootFaults {
+		// a store call failed during this start-up: dying is an accepted outcome
+		w.stats.probe("panic_on_store_error_at_boot")
 		return
 	}
 	if inc.booting {
